@@ -8,6 +8,7 @@ import (
 	"time"
 
 	"github.com/KevoDB/kevo/pkg/common/log"
+	"github.com/KevoDB/kevo/pkg/verifhook"
 	"github.com/KevoDB/kevo/pkg/wal"
 	proto "github.com/KevoDB/kevo/proto/kevo/replication"
 	"google.golang.org/grpc/codes"
@@ -301,6 +302,7 @@ func (p *Primary) StreamWAL(
 		select {
 		case <-ctx.Done():
 			// Context was canceled, exit
+			verifhook.At("rp.stream.done")
 			return ctx.Err()
 		case <-ticker.C:
 			// Check if we have new entries to send
